@@ -19,7 +19,7 @@ META = {
                    "report paths of its specification (the construct's own location, not that of an operand); which nodes match and when is decided by C05-C09.",
     "assumptions": ["Loc::start() is the byte offset of the first byte of the construct (parser contract)",
                     "Iterator::take/filter/count and str::bytes semantics (std contract)"],
-    "floors": {"R02.plumb": 9, "R02.range": 1, "R02.canon": 1, "R02.where": 23},
+    "floors": {"R02.plumb": 9, "R02.range": 1, "R02.canon": 1, "R02.where": 23, "R02.asread": 1},
 }
 
 
@@ -167,6 +167,10 @@ def run(ctx, crate):
         obs.append(Ob("R02.plumb", d.path, "every location is converted and kept", unconditional and inserted and not edited, site=s.where,
                       expected="for loc in locations { lines.insert(get_line_number(loc.start(), text)) }; return lines — the detector's set not edited in between",
                       found="unconditional=%s inserted_into_result=%s%s" % (unconditional, inserted, (" detector result borrowed mutably at line(s) %s" % edited) if edited else "")))
+    # the text in which lines are counted is the file as it is on disk: a walker that analyses a trimmed / rewritten copy reports the copy's lines (C17's obligation)
+    from rules import depend
+    obs.append(depend.inherited(ctx, crate, "R02.asread", "analyze_dir x3", "the text analysed is the file's content as read (C17's obligation on what the walks hand to the analysis)",
+                                "C17", lambda o: o.rule == "R17.asread", example="a file that starts with two blank lines"))
     # ---------------- get_line_number
     lb = crate.bodies.get(D.LINE_FN)
     if table_forms == len(disp) and table_forms > 0:
